@@ -218,6 +218,26 @@ pub fn run_node<C: MakeCustom, Q: MakeCustomQuery>(
         match w {
             WriteOp::Set { k, v } => storage.set(&names.key(k), v),
             WriteOp::Remove { k } => storage.remove(&names.key(k)),
+            WriteOp::Bulk { tag, n } => {
+                for i in 0..*n {
+                    storage.set(&crate::ops::bulk_key(*tag, i), &[*tag, (i >> 8) as u8, i as u8, 1]);
+                }
+            }
+            WriteOp::BulkRemove { tag, n } => {
+                for i in 0..*n {
+                    storage.remove(&crate::ops::bulk_key(*tag, i));
+                }
+            }
+            WriteOp::Restore { k, rewrite_only } => {
+                let key = names.key(k);
+                let cur = storage.get(&key);
+                if !rewrite_only {
+                    storage.remove(&key);
+                }
+                if let Some(cur) = cur {
+                    storage.set(&key, &cur);
+                }
+            }
         }
     }
     let post_reads: Vec<String> = node.post_reads.iter().map(|r| do_read(&*storage, r)).collect();
@@ -406,6 +426,14 @@ fn wrapped_empty<const TAG: u32>(checksum: Option<Checksum>) -> Box<dyn Contract
     }
 }
 
+fn wrapped_bare<const TAG: u32>(checksum: Option<Checksum>) -> Box<dyn Contract<SimMsg, SimQuery>> {
+    let w = ContractWrapper::new(g_exec::<SimMsg, SimQuery, TAG>, g_inst::<SimMsg, SimQuery, TAG>, g_query::<SimQuery, TAG>);
+    match checksum {
+        Some(c) => Box::new(w.with_checksum(c)),
+        None => Box::new(w),
+    }
+}
+
 pub const MAX_WRAPPED_TAG: u32 = 15;
 
 macro_rules! by_tag {
@@ -446,13 +474,14 @@ pub fn make_code(kind: CodeKind, tag: u32, world: &World, with_checksum: Option<
     match kind {
         CodeKind::Wrapped if tag <= MAX_WRAPPED_TAG => by_tag!(wrapped, tag, cs),
         CodeKind::WrappedEmpty if tag <= MAX_WRAPPED_TAG => by_tag!(wrapped_empty, tag, cs),
+        CodeKind::WrappedBare if tag <= MAX_WRAPPED_TAG => by_tag!(wrapped_bare, tag, cs),
         _ => Box::new(SimContract { tag, world: world.clone(), checksum: cs }),
     }
 }
 
 pub fn effective_kind(kind: CodeKind, tag: u32) -> CodeKind {
     match kind {
-        CodeKind::Wrapped | CodeKind::WrappedEmpty if tag > MAX_WRAPPED_TAG => CodeKind::Direct,
+        CodeKind::Wrapped | CodeKind::WrappedEmpty | CodeKind::WrappedBare if tag > MAX_WRAPPED_TAG => CodeKind::Direct,
         k => k,
     }
 }
@@ -464,6 +493,18 @@ pub fn effective_kind(kind: CodeKind, tag: u32) -> CodeKind {
 /// byte incremented, the fourth (for odd code ids) the first one's address again, which must be
 /// rejected as a duplicate. Salted addresses stay the default.
 pub struct AdvAddrGen;
+
+/// Checksum generator whose result depends on the creator as well as on the code id (the trait gives
+/// it both): two chains that store codes under the same ids get different checksums.
+pub struct CreatorChecksums;
+
+impl cw_multi_test::ChecksumGenerator for CreatorChecksums {
+    fn checksum(&self, creator: &cosmwasm_std::Addr, code_id: u64) -> Checksum {
+        use sha2::{Digest, Sha256};
+        let d: [u8; 32] = Sha256::digest(format!("creator-checksum/{}/{}", creator, code_id).as_bytes()).into();
+        Checksum::from(d)
+    }
+}
 
 pub fn adv_address(api: &dyn cosmwasm_std::Api, code_id: u64, instance_id: u64) -> AnyResult<cosmwasm_std::Addr> {
     use sha2::{Digest, Sha256};
